@@ -100,6 +100,7 @@ class TriggerHandler:
         self._config = config
         self._config.add_listener(TracepointHandlerUpdateListener(self))
         self._callbacks: ThreadLocal[Deque[CallbackContext]] = ThreadLocal(lambda: deque())
+        self.__unwinding = threading.local()
 
     def start(self):
         """Start the trigger handler."""
@@ -238,12 +239,21 @@ class TriggerHandler:
         pending = self._callbacks.value
         not_at_location = deque()
         invocation = []
+        # an invocation that an exception leaves gets an 'exception' event - which completes what it had opened - and
+        # then a 'return' event: that one is at the location of the OUTER invocations' entries by name (recursion), but
+        # it ends this invocation only
+        unwinding = self.__unwinding_frames()
+        own_only = event == 'return' and id(frame) in unwinding
+        unwinding.discard(id(frame))
         while len(pending) > 0:
             context: CallbackContext = pending.pop()
             # if it is for our location process it
             if context.at_location(event, file, line, function_name, frame) and (
+                    context.opened_in == id(frame) if own_only else
                     len(invocation) == 0 or invocation[0] is None or context.opened_in == invocation[0]):
                 invocation.append(context.opened_in)
+                if event == 'exception':
+                    unwinding.add(id(frame))
                 logging.debug("At callback location %s", context.name)
                 context.process(ctx, event, frame, arg)
             else:
@@ -255,6 +265,12 @@ class TriggerHandler:
         if len(self._callbacks.value) == 0:
             logging.debug("Callbacks cleared.")
             self._callbacks.clear()
+
+    def __unwinding_frames(self) -> set:
+        frames = getattr(self.__unwinding, 'frames', None)
+        if frames is None:
+            frames = self.__unwinding.frames = set()
+        return frames
 
     @staticmethod
     def location_from_event(event: str, frame: FrameType) -> Tuple[str, str, int, Optional[str]]:
